@@ -187,7 +187,7 @@ package engine
 // metavariables, statement / expression / field lists may contain elisions, everything else is compiled
 // structurally. The recursion descends into strictly smaller pattern trees.
 //@ func (c *matcherCompiler) compile(v) (m)
-//@   requires [C08] a-valid-value: kind(v) != 0
+//@   requires [C01,C08] a-valid-value: kind(v) != 0
 //@   requires typing: compileEnvOK()
 //@   unfold compileEnvOK() == compileEnvFacts()
 //@   decreases 8 * rvSize(v) + 7
@@ -206,7 +206,7 @@ package engine
 // regenerated from the recorded positions, identifiers may be metavariables, the three list kinds may
 // hold elisions, everything else is compiled structurally.
 //@ func (c *replacerCompiler) compile(v) (m)
-//@   requires [C08] a-valid-value: kind(v) != 0
+//@   requires [C03,C08] a-valid-value: kind(v) != 0
 //@   requires typing: compileEnvOK()
 //@   unfold compileEnvOK() == compileEnvFacts()
 //@   decreases 8 * rvSize(v) + 7
@@ -539,7 +539,7 @@ package engine
 // struct recursively (every element / field, in order), anything else as the scalar itself; AST nodes are
 // additionally wrapped so that the region narrows to the node.
 //@ func (c *matcherCompiler) compileGeneric(v) (m)
-//@   requires [C08] a-valid-value: kind(v) != 0
+//@   requires [C01,C08] a-valid-value: kind(v) != 0
 //@   requires typing: compileEnvOK()
 //@   unfold compileEnvOK() == compileEnvFacts()
 //@   decreases 8 * rvSize(v) + 5
@@ -558,7 +558,7 @@ package engine
 //@   inline
 
 //@ func (c *matcherCompiler) compilePtr(v) (m)
-//@   requires [C08] a-pointer: kind(v) == 22
+//@   requires [C01,C08] a-pointer: kind(v) == 22
 //@   requires typing: compileEnvOK()
 //@   unfold compileEnvOK() == compileEnvFacts()
 //@   decreases 8 * rvSize(v) + 4
@@ -569,7 +569,7 @@ package engine
 //@   ensures [C01] pointer-to-the-compiled-target: !risnil(v) ==> m == boxed(mk("github.com/uber-go/gopatch/internal/engine.PtrMatcher", cM(c.fset, c.meta, relem(v), c.patchStart, c.patchEnd)))
 
 //@ func (c *matcherCompiler) compileInterface(v) (m)
-//@   requires [C08] an-interface: kind(v) == 20
+//@   requires [C01,C08] an-interface: kind(v) == 20
 //@   requires typing: compileEnvOK()
 //@   unfold compileEnvOK() == compileEnvFacts()
 //@   decreases 8 * rvSize(v) + 4
@@ -580,7 +580,7 @@ package engine
 //@   ensures [C01] interface-holding-the-compiled-value: !risnil(v) ==> m == boxed(mk("github.com/uber-go/gopatch/internal/engine.InterfaceMatcher", cM(c.fset, c.meta, relem(v), c.patchStart, c.patchEnd)))
 
 //@ func (c *matcherCompiler) compileSlice(v) (m)
-//@   requires [C08] a-list: kind(v) == 23
+//@   requires [C01,C08] a-list: kind(v) == 23
 //@   requires typing: compileEnvOK()
 //@   unfold compileEnvOK() == compileEnvFacts()
 //@   decreases 8 * rvSize(v) + 4
@@ -596,7 +596,7 @@ package engine
 //@     decreases rlen(v) - i
 
 //@ func (c *matcherCompiler) compileStruct(v) (m)
-//@   requires [C08] a-struct: kind(v) == 25
+//@   requires [C01,C08] a-struct: kind(v) == 25
 //@   requires typing: compileEnvOK()
 //@   unfold compileEnvOK() == compileEnvFacts()
 //@   decreases 8 * rvSize(v) + 4
@@ -632,7 +632,7 @@ package engine
 // Lists that may contain elisions (C04): every element that is not an elision is compiled, in order;
 // each elision closes a section. Without elisions the list is an ordinary list pattern.
 //@ func (c *matcherCompiler) compileSliceDots(items, isDots) (m)
-//@   requires [C08] a-list: kind(items) == 23
+//@   requires [C01,C08] a-list: kind(items) == 23
 //@   requires typing: compileEnvOK()
 //@   unfold compileEnvOK() == compileEnvFacts()
 //@   requires typing: isDots != nil
@@ -658,7 +658,7 @@ package engine
 // `for ... { body }` (no init, no post, the condition an elision) matches any for / range statement
 // whose body matches; every other for statement is compiled structurally.
 //@ func (c *matcherCompiler) compileForStmt(v) (m)
-//@   requires [C08] a-valid-value: kind(v) != 0
+//@   requires [C01,C08] a-valid-value: kind(v) != 0
 //@   requires typing: compileEnvOK()
 //@   unfold compileEnvOK() == compileEnvFacts()
 //@   requires typing: rvIface(v).typ == dyn("*go/ast.ForStmt") && rvIface(v).val != nil
@@ -675,7 +675,7 @@ package engine
 // An identifier of the '-' pattern: a declared metavariable becomes a MetavarMatcher of its kind (C02),
 // anything else (including an absent identifier) is matched as ordinary code.
 //@ func (c *matcherCompiler) compileIdent(v) (m)
-//@   requires [C08] a-valid-value: kind(v) != 0
+//@   requires [C01,C08] a-valid-value: kind(v) != 0
 //@   requires typing: compileEnvOK()
 //@   unfold compileEnvOK() == compileEnvFacts()
 //@   requires typing: rvIface(v).typ == dyn("*go/ast.Ident")
@@ -691,7 +691,7 @@ package engine
 // Structural compilation of the '+' side (Level 2, C03): by kind - pointer, interface, list and struct
 // recursively (every element / field, in order, of the pattern's own type), anything else verbatim.
 //@ func (c *replacerCompiler) compileGeneric(v) (m)
-//@   requires [C08] a-valid-value: kind(v) != 0
+//@   requires [C03,C08] a-valid-value: kind(v) != 0
 //@   requires typing: compileEnvOK()
 //@   unfold compileEnvOK() == compileEnvFacts()
 //@   decreases 8 * rvSize(v) + 5
@@ -707,7 +707,7 @@ package engine
 //@   ensures [C03] structs: kind(v) == 25 ==> m.typ == dyn("github.com/uber-go/gopatch/internal/engine.StructReplacer") && unbox(m, "S_engine_StructReplacer").Type == rtype(v) && len(unbox(m, "S_engine_StructReplacer").Fields) == numfield(rtype(v)) && forall j int {unbox(m, "S_engine_StructReplacer").Fields[j]} :: 0 <= j && j < numfield(rtype(v)) ==> unbox(m, "S_engine_StructReplacer").Fields[j] == cR(c.fset, c.meta, c.dotAssoc, fld(v, j), c.patchStart, c.patchEnd)
 
 //@ func (c *replacerCompiler) compilePtr(v) (m)
-//@   requires [C08] a-pointer: kind(v) == 22
+//@   requires [C03,C08] a-pointer: kind(v) == 22
 //@   requires typing: compileEnvOK()
 //@   unfold compileEnvOK() == compileEnvFacts()
 //@   decreases 8 * rvSize(v) + 4
@@ -719,7 +719,7 @@ package engine
 //@   ensures [C03] pointer-to-the-compiled-target: !risnil(v) ==> m == boxed(mk("github.com/uber-go/gopatch/internal/engine.PtrReplacer", cR(c.fset, c.meta, c.dotAssoc, relem(v), c.patchStart, c.patchEnd), rtype(v)))
 
 //@ func (c *replacerCompiler) compileInterface(v) (m)
-//@   requires [C08] an-interface: kind(v) == 20
+//@   requires [C03,C08] an-interface: kind(v) == 20
 //@   requires typing: compileEnvOK()
 //@   unfold compileEnvOK() == compileEnvFacts()
 //@   decreases 8 * rvSize(v) + 4
@@ -731,7 +731,7 @@ package engine
 //@   ensures [C03] interface-holding-the-compiled-value: !risnil(v) ==> m == boxed(mk("github.com/uber-go/gopatch/internal/engine.InterfaceReplacer", cR(c.fset, c.meta, c.dotAssoc, relem(v), c.patchStart, c.patchEnd), rtype(v)))
 
 //@ func (c *replacerCompiler) compileSlice(v) (m)
-//@   requires [C08] a-list: kind(v) == 23
+//@   requires [C03,C08] a-list: kind(v) == 23
 //@   requires typing: compileEnvOK()
 //@   unfold compileEnvOK() == compileEnvFacts()
 //@   decreases 8 * rvSize(v) + 4
@@ -749,7 +749,7 @@ package engine
 //@     decreases rlen(v) - i
 
 //@ func (c *replacerCompiler) compileStruct(v) (m)
-//@   requires [C08] a-struct: kind(v) == 25
+//@   requires [C03,C08] a-struct: kind(v) == 25
 //@   requires typing: compileEnvOK()
 //@   unfold compileEnvOK() == compileEnvFacts()
 //@   decreases 8 * rvSize(v) + 4
@@ -768,7 +768,7 @@ package engine
 // An identifier of the '+' pattern: a declared metavariable is replaced by what it captured, anything
 // else is generated verbatim.
 //@ func (c *replacerCompiler) compileIdent(v) (m)
-//@   requires [C08] a-valid-value: kind(v) != 0
+//@   requires [C03,C08] a-valid-value: kind(v) != 0
 //@   requires typing: compileEnvOK()
 //@   unfold compileEnvOK() == compileEnvFacts()
 //@   requires typing: rvIface(v).typ == dyn("*go/ast.Ident") && rvIface(v).val != nil
@@ -800,7 +800,7 @@ package engine
 // Lists of the '+' side that may contain elisions (C04): every element that is not an elision is compiled,
 // in order; each elision closes a section and is recorded for association with a '-' elision.
 //@ func (c *replacerCompiler) compileSliceDots(items, isDots) (m)
-//@   requires [C08] a-list: kind(items) == 23
+//@   requires [C03,C08] a-list: kind(items) == 23
 //@   requires typing: compileEnvOK()
 //@   unfold compileEnvOK() == compileEnvFacts()
 //@   requires typing: isDots != nil
@@ -827,7 +827,7 @@ package engine
 //@     decreases rlen(items) - i
 
 //@ func (c *replacerCompiler) compileForStmt(v) (m)
-//@   requires [C08] a-valid-value: kind(v) != 0
+//@   requires [C03,C08] a-valid-value: kind(v) != 0
 //@   requires typing: compileEnvOK()
 //@   unfold compileEnvOK() == compileEnvFacts()
 //@   requires typing: rvIface(v).typ == dyn("*go/ast.ForStmt") && rvIface(v).val != nil
